@@ -94,8 +94,10 @@ int32_t psBase64decode(const unsigned char *in, psSize_t len,
         if (c == 254)
         {
             c = 0;
-            /* prevent g < 0 which would potentially allow an overflow later */
-            if (--g < 0)
+            /* A quartet holds at most two '='. With three, g would become 0
+               and the unconditional first write below would store a byte
+               that was never accounted for in the outlen check. */
+            if (--g < 1)
             {
                 psTraceCrypto("Negative g failure in psBase64decode\n");
                 return PS_LIMIT_FAIL;
